@@ -2,7 +2,8 @@
 C08 — xyz round trip and unit handling: coordinates mean what the file says.
 
 Proof:  Molli.Props.C08 (xyz_read_write, xyz_frames, xyz_read_write_preserves, xyz_token_fixed, symbol_roundtrip,
-        unit_invariance, toAngstrom_sub, angstrom_identity; numeric layer shared with C07) + generated obligations Molli.Gen.Units (every DistanceUnit member is a
+        unit_invariance, toAngstrom_sub, angstrom_identity, toAngstrom_injective, distance_scaling,
+        physical_distance_unchanged, unit_independent; numeric layer shared with C07) + generated obligations Molli.Gen.Units (every DistanceUnit member is a
         known, non-zero unit with its physical value) and Molli.Gen.Mol2Types.symbol_roundtrip.
 Tie:    unit table and element symbols regenerated from the live modules; text differential: geometries and
         ensembles written by the real dumps_xyz and by the model writer (byte-identical), read by the real
